@@ -121,9 +121,9 @@ def c07_handleRange (j : Json) (op : String) (d : Nat) (dflt : Int) : Except Str
 
 def c07_coords (j : Json) (op : String) (cfg : Cfg) {π : Type} (l : Fib Int π) : List Int :=
   let step := (c07_optNat j "step").getD 1
-  if op.startsWith "rshape" then pyRange (fIntD j "s" 0) (fIntD j "e" 0) step
-  else if op.startsWith "shape" then pyRange 0 (getShape cfg l) 1
-  else pyRange (getActive cfg l).1 (getActive cfg l).2 1
+  let w : Wrap := if op.startsWith "rshape" then .range (fIntD j "s" 0) (fIntD j "e" 0) step
+    else if op.startsWith "shape" then .shape else .active
+  wrapCoords w cfg l
 
 /-- single-fiber shape iteration, with and without reference creation -/
 def c07_handleShape (j : Json) (op : String) (d : Nat) (dflt : Int) : Except String Verdict := do
